@@ -75,6 +75,10 @@ impl<'a> StringLexer<'a> {
                     }
                     b'\\' => Some(b'\\'),
 
+                    c if !(b'0'..=b'7').contains(&c) => {
+                        // not an escape sequence: the backslash is ignored
+                        Some(c)
+                    }
                     _ => {
                         self.back()?;
                         let _start = self.get_offset();
@@ -107,6 +111,14 @@ impl<'a> StringLexer<'a> {
                 } else {
                     Ok(Some(b')'))
                 }
+            },
+
+            b'\r' => {
+                // an unescaped end-of-line marker (CR, LF or CR LF) denotes a single LF
+                if let Ok(b'\n') = self.peek_byte() {
+                    let _ = self.next_byte();
+                }
+                Ok(Some(b'\n'))
             },
 
             c => Ok(Some(c))
